@@ -59,6 +59,23 @@ def deep_data(n):
             "deep_data_join": pre + "shout(a.join(\",\"))", "deep_data_compare": pre + "make b get a\nshout(1)"}
 
 
+GROW = {"literal": " a get [a]\n", "push": " make b get [0]\n b.push(a)\n a get b\n", "store": " make b get [[0]]\n b[0][0] get a\n a get b\n",
+        "nested_push": " make b get [[0]]\n b[0].push(a)\n a get b\n"}
+WALKS = {"clone": "make c get a\nshout(1)", "print": "shout(a)", "join": "shout(a.join(\",\").len())", "store": "make c get [0]\nc[0] get a\nshout(1)",
+         "arg_return": "do id(p) start return p end\nmake c get id(a)\nshout(1)", "interpolate": "make t get \"<{a}>\"\nshout(t.len())",
+         "compare": "make c get a\nshout(a na c)", "typeof_len": "shout(typeof(a))\nshout(a.len())", "reverse_pop": "a.reverse()\nmake c get a.pop()\nshout(1)"}
+
+
+def data_program(n, how, walk, at_recursion_depth=None):
+    """An array nested n levels (grown one level per loop iteration by `how`), then one walk over it -
+    optionally performed at the bottom of a recursion that many calls deep."""
+    pre = "make a get [1]\nmake i get 0\njasi (i small pass %d) start\n%s i get i add 1\nend\n" % (n, GROW[how])
+    if at_recursion_depth is None:
+        return pre + WALKS[walk]
+    body = "\n".join("  " + ln for ln in WALKS[walk].split("\n"))
+    return pre + "do down(n) start\n if to say (n na 0) start\n%s\n  return 0\n end\n return 1 add down(n minus 1)\nend\nshout(down(%d))" % (body, at_recursion_depth)
+
+
 def run_one(binp, src, td, timeout):
     path = os.path.join(td, "t.ns")
     with open(path, "w") as f:
@@ -173,6 +190,44 @@ def run(tier):
                     r = run_one(binp, src, td, 120 if q else 600)
                     evaluations += 1
                     results.setdefault((name, prof), []).append((n, r))
+            # data depth: the deepest array each way of growing accepts, every walk over it, and the
+            # walk performed at the bottom of the deepest recursion the stack budget allows
+            def data_ok(n, how):
+                return run_one(binp, data_program(n, how, "typeof_len"), td, 300) == "ok"
+            for how in GROW:
+                lo, hi = 1, 8192
+                if data_ok(hi, how):
+                    lo = hi
+                while hi - lo > 1:
+                    mid = (lo + hi) // 2
+                    if data_ok(mid, how):
+                        lo = mid
+                    else:
+                        hi = mid
+                frontiers["data:%s/%s" % (how, prof)] = lo
+                for walk in WALKS:
+                    r = run_one(binp, data_program(lo, how, walk), td, 300)
+                    evaluations += 1
+                    results[("data_%s_%s" % (how, walk), prof)] = [("deepest-accepted:%d" % lo, r)]
+                r = run_one(binp, data_program(100000, how, "print"), td, 300)
+                evaluations += 1
+                results[("data_%s_print" % how, prof)].append((100000, r))
+            def rec_ok(d):
+                return run_one(binp, data_program(1, "literal", "clone", at_recursion_depth=d), td, 300) == "ok"
+            lo, hi = 1, 1 << 20
+            while hi - lo > 1:
+                mid = (lo + hi) // 2
+                if rec_ok(mid):
+                    lo = mid
+                else:
+                    hi = mid
+            frontiers["recursion-depth-before-stack-overflow/%s" % prof] = lo
+            deepest = frontiers["data:literal/%s" % prof]
+            for walk in WALKS:
+                for d in (lo, lo - 1, lo - 8):
+                    r = run_one(binp, data_program(deepest, "literal", walk, at_recursion_depth=max(d, 1)), td, 300)
+                    evaluations += 1
+                    results.setdefault(("data_walk_at_stack_limit_%s" % walk, prof), []).append(("recursion %d, data %d" % (d, deepest), r))
     notes = []
     for (name, prof), res in sorted(results.items()):
         bad = [x for x in res if x[1].startswith("NATIVE") or x[1] == "PANIC"]
